@@ -161,6 +161,14 @@ func runC01(c *Ctx) {
 		featCount[ci] = fc
 		for k := 0; k < n/chunks; k++ {
 			p := gen.Profile{Schema: schemas[rng.IntN(len(schemas))], MaxLines: c.N(12, 40), Preset: true}
+			if k%16 == 15 {
+				// several fixed document discounts and charges with more decimals than the
+				// currency, under each rule: where each of them is rounded decides the sums
+				p.ManyOddFixed = true
+				p.MaxLines = 3
+				p.Rule = []string{"currency", "precise", ""}[(k/16)%3]
+				fc["documents_with_several_excess_decimal_fixed_rows"]++
+			}
 			d := g.Document(p)
 			r := runBill(d.JSON, 0)
 			if !judgeBill(c, r, "generated", d.Features, nil) {
@@ -240,7 +248,7 @@ func runC01(c *Ctx) {
 	for _, k := range keys {
 		c.R.Count(k, total[k])
 	}
-	c.Require("documents", "corpus_documents_compared", "exact_half_unit_ties", "feature:preset-rounding", "feature:doc-dc-percent-base", "feature:breakdown", "feature:advance-percent", "recalculated_after_removing:charges", "unrounded_bound_checked")
+	c.Require("documents", "documents_with_several_excess_decimal_fixed_rows", "corpus_documents_compared", "exact_half_unit_ties", "feature:preset-rounding", "feature:doc-dc-percent-base", "feature:breakdown", "feature:advance-percent", "recalculated_after_removing:charges", "unrounded_bound_checked")
 }
 
 // runBillRefOnly re-runs only the reference with extra working precision.
